@@ -69,7 +69,12 @@ type c16Ev struct{ grp, idx int }
 type c16Case struct {
 	srcs, bases []c16Src
 	order       []c16Ev
+	fetch       bool // drive fetchProfiles (base subtraction included) instead of grabSourcesAndBases
 }
+
+type c16Sym struct{}
+
+func (c16Sym) Symbolize(mode string, srcs plugin.MappingSources, prof *profile.Profile) error { return nil }
 
 // ---- building real profiles from the toy description
 
@@ -327,7 +332,12 @@ func c16Run(cs c16Case) (obs Term) {
 				panicked = fmt.Sprint(r)
 			}
 		}()
-		p, pb, _, _, save, err = driver.VerifC16Grab(addrs[0], addrs[1], env, c16Obj{}, env, env)
+		if cs.fetch {
+			p, err = driver.VerifC16Fetch(addrs[0], addrs[1], false,
+				&plugin.Options{Fetch: env, Sym: c16Sym{}, Obj: c16Obj{}, UI: env, HTTPTransport: env})
+		} else {
+			p, pb, _, _, save, err = driver.VerifC16Grab(addrs[0], addrs[1], env, c16Obj{}, env, env)
+		}
 	}()
 	close(finished)
 	for _, g := range env.gates {
@@ -349,6 +359,8 @@ func c16Run(cs c16Case) (obs Term) {
 			status = "no-src"
 		case m == "failed to fetch any base profiles":
 			status = "no-base"
+		case cs.fetch && (strings.HasPrefix(m, "profiles have empty common sample type list") || strings.HasPrefix(m, "sample types:") || strings.HasPrefix(m, "period type:")):
+			status = "err-diff" // combining the merged sources with the negated merged bases failed
 		default:
 			status = "other:" + m
 		}
@@ -425,6 +437,9 @@ func c16Input(cs c16Case) Term {
 	}
 	for _, e := range cs.order {
 		o = append(o, ZI(e.grp*1000000+e.idx))
+	}
+	if cs.fetch {
+		return L(L(a...), L(b...), L(o...), S("fetch"))
 	}
 	return L(L(a...), L(b...), L(o...))
 }
@@ -783,6 +798,39 @@ func runC16(c *Ctx) {
 			cs.order = c16Order(c.R, n, 0, 0)
 			c.c16Emit("incompatible", cs, "gen-incompatible")
 		}
+	}
+	// G5: the same through fetchProfiles (fetch.go:41): the profile pprof goes on to report on is the
+	// merged sources minus the merged bases.  Values stay below 2^40 (Scale(-1) goes through float64);
+	// no remote kinds (a remote source would make fetchProfiles save a copy under $HOME/pprof).
+	localOK := []int{kFetchOK, kFetchTest, kFileOK}
+	smallVals := []int64{1, 2, 3, 5, -5, 7, 0, 100, 1 << 39}
+	for k := 0; k < c.Budget(400, 15000); k++ {
+		cs := c16Case{fetch: true}
+		ns, nb := 1+c.R.Intn(5), c.R.Intn(4)
+		mk := func(i, grp int) c16Src {
+			s := c16Src{typ: "samples"}
+			if c.R.P(2, 3) {
+				s.kind = localOK[c.R.Intn(len(localOK))]
+			} else {
+				s.kind = c16FailKinds[c.R.Intn(len(c16FailKinds))]
+			}
+			if c.R.P(1, 25) {
+				s.typ = "other"
+			}
+			for j := c.R.Intn(4); j > 0; j-- {
+				s.samples = append(s.samples, c16KV{PickS(c.R, keys), PickI(c.R, smallVals)})
+			}
+			s.samples = append(s.samples, c16KV{fmt.Sprintf("own%d_%d", grp, i), int64(i + 1)})
+			return s
+		}
+		for i := 0; i < ns; i++ {
+			cs.srcs = append(cs.srcs, mk(i, 0))
+		}
+		for i := 0; i < nb; i++ {
+			cs.bases = append(cs.bases, mk(i, 1))
+		}
+		cs.order = c16Order(c.R, ns, nb, 0)
+		c.c16Emit("fetchprofiles", cs, "gen-fetchprofiles")
 	}
 	c.c16Flush()
 	c.Extra["controller_stalls"] = c16Stalls
